@@ -22,3 +22,35 @@ reg("C27",
     "Trusts icontract to evaluate the condition on each call (evaluations are "
     "counted; zero => inconclusive) and my 15-line acyclicity test.",
     "DESIGN.md §5 C27")
+
+reg("C17",
+    "reference-evaluator monitor: every claim of the real SymbolicMaths is "
+    "checked over integer valuations by an independent Fortran-integer "
+    "evaluator (validated against gfortran each run)",
+    "Each equal/never_equal/solve_equal_for/expand answer given by the real "
+    "SymbolicMaths on generated near-identity pairs (size<=9, + - * / ** neg "
+    "MOD MIN MAX ABS, index arrays) is refuted or not by evaluating both "
+    "sides under Fortran INTEGER semantics on every valuation in [-6,6]^3 "
+    "plus large ones. Sampled expression pairs, exhaustive small valuations; "
+    "held-on-what-was-observed, not a proof.",
+    "Trusts vf.iexpr (200 lines; compared with gfortran on 150+ "
+    "expression/valuation samples per run, disagreement => inconclusive); "
+    "known defects int_division_as_real and mod_floored_not_truncated are "
+    "recognised by mechanism (claim true over rationals/floored Mod AND a "
+    "truncating division / negative MOD operand at the witness).",
+    "DESIGN.md §5 C17")
+
+reg("C18",
+    "output monitor: independent free-form continuation joiner + tokeniser "
+    "compares logical lines of input and of the real limiter's output; "
+    "limit, idempotence and no-exception monitors",
+    "The real FortLineLength.process runs on generated texts (statements, "
+    "declarations, calls with string literals, directives, comments, "
+    "trailing comments) at limits 40..132; my joiner (F2008 3.3.2.4 incl. "
+    "character context, !$omp&/!$acc& sentinels, '!& ' comments) must "
+    "recover the same logical lines token for token. Sampled inputs.",
+    "Trusts my joiner/tokeniser (it rejects what it cannot join: such inputs "
+    "are counted, not judged). A raise on a line outside the generator's "
+    "breakability guarantee is counted, not judged. Known defect "
+    "trailing_comment_split needs the comment-free twin to pass.",
+    "DESIGN.md §5 C18")
